@@ -698,23 +698,20 @@ def run_hitsound(case, drv):
     else:
         same = out[0][:2] == out[1][:2]
     ok = same or not dom
-    kf = None
     objcols = _object_lists(src2) + _object_lists(tgt2)
     if objcols:
+        # the shape of the repaired finding D40 (append(<one item>) left object-dtype columns, on which
+        # `hitsound_set & 2 == 2` is a logical and); tagged only - a fixed finding suppresses nothing
         tags.append("object-dtype-after-append")
-    if not ok and objcols:
-        # N15a: `append(<one item>)` left the list with object-dtype columns, on which `hitsound_set & 2 == 2` is a
-        # logical and: is that the ONLY reason?  Give the columns back their declared dtypes and run again.
-        try:
-            fixed = _hs_snap(hitsound_copy(_retyped(src2), _retyped(tgt2)))
-            if same_rows(drv, _note_keys(out[0][1]), _note_keys(fixed)) and same_rows(drv, _sounds(out[0][1]), _sounds(fixed)):
-                kf = "N15a"
-        except Exception:
-            pass
+        if not ok:
+            try:
+                fixed = _hs_snap(hitsound_copy(_retyped(src2), _retyped(tgt2)))
+                if same_rows(drv, _note_keys(out[0][1]), _note_keys(fixed)) and same_rows(drv, _sounds(out[0][1]), _sounds(fixed)):
+                    tags.append("equal-once-retyped(D40)")
+            except Exception:
+                pass
     agree = True
     for i, (o, mm) in enumerate(zip(out, mo)):
-        if kf == "N15a" and i == 1:
-            continue                    # the model has no dtypes: it is a model of the retyped run (checked above)
         if o[0] != "ok" or "ok" not in mm:
             agree = False
         else:
@@ -723,10 +720,9 @@ def run_hitsound(case, drv):
     if "ok" in mo[0] and "ok" in mo[1]:
         agree = agree and same_rows(drv, _note_keys(mo[0]["ok"]), _note_keys(mo[1]["ok"])) and \
             same_rows(drv, _sounds(mo[0]["ok"]), _sounds(mo[1]["ok"]))
-    r = res("hitsound", ok, agree, dom and kf is None, tags, "reordered" in tags,
+    r = res("hitsound", ok, agree, dom, tags, "reordered" in tags,
                dict(impl=[str(o)[:2000] for o in out], model=[str(x)[:1500] for x in mo], src=w[0][0], tgt=w[0][1],
                     src_permuted=w[1][0], tgt_permuted=w[1][1], object_dtype_lists=objcols))
-    r["kf"] = kf
     return r
 
 
